@@ -27,6 +27,12 @@
 //! type_of at every token, and an edit to the neighbouring boundary value is compared with a
 //! brand-new database. The templates are also an item kind of the project generator.
 //!
+//! A fourth search (`c13/readers.rs`) shares one `&Database` between 2-4 reader threads
+//! (as the language server does under `project.read()`): after a sequential edit history the
+//! readers issue generated read-only queries at the same time, cold and warm; every answer
+//! must equal the sequential answer of a brand-new database. It is the only
+//! schedule-dependent part, and its oracle involves no timing.
+//!
 //! In both passes every query is issued twice in a row and must return an equal answer, and
 //! any panic (in the incremental or the fresh database) is a violation.
 
@@ -45,6 +51,7 @@ use crate::engine::{Probe, PropertyInfo, RunCtx};
 mod boundary;
 mod gen;
 mod project;
+mod readers;
 mod render;
 
 use gen::{History, Op, QueryKind, NFILES};
@@ -53,9 +60,10 @@ pub fn info() -> PropertyInfo {
     PropertyInfo {
         id: "C13",
         level: "exploration",
-        rule: "search `history`: case = history of 1..40 ops {set, remove, query(diagnostics|analyze|file_symbols|type_of|expr_id_at_offset)} over FileId 1..5 with small edits of a cross-referencing generated project, run against trust_hir::Database; non-trivial = the history contains an edit (set/remove) of file A after which the from-scratch answers for another, textually unchanged file B differ from before the edit while B had already been queried by the history since B's last own change, or it removes a file and later re-adds it. Search `project`: case = history of 1..40 ops {set, remove, rename (remove old, remove new, set new), query} over 8 source keys (<= 6 live) run against trust_hir::Project; non-trivial = some key gets a file id allocated (new key or re-add) after another key was removed while >= 2 other keys are live. Search `boundary`: case = (template 0..43, three indices into pools of numeric boundary literals, type) -> one text with boundary numbers where the front end computes with source numbers, analysed in a new database (type_of at every token), imported by a second file and edited to the neighbouring boundary value; non-trivial = the text has no syntax error (the analysis reaches the numbers), distinct by text. Otherwise distinct by SHA-256 of the op list",
+        rule: "search `history`: case = history of 1..40 ops {set, remove, query(diagnostics|analyze|file_symbols|type_of|expr_id_at_offset)} over FileId 1..5 with small edits of a cross-referencing generated project, run against trust_hir::Database; non-trivial = the history contains an edit (set/remove) of file A after which the from-scratch answers for another, textually unchanged file B differ from before the edit while B had already been queried by the history since B's last own change, or it removes a file and later re-adds it. Search `project`: case = history of 1..40 ops {set, remove, rename (remove old, remove new, set new), query} over 8 source keys (<= 6 live) run against trust_hir::Project; non-trivial = some key gets a file id allocated (new key or re-add) after another key was removed while >= 2 other keys are live. Search `boundary`: case = (template 0..43, three indices into pools of numeric boundary literals, type) -> one text with boundary numbers where the front end computes with source numbers, analysed in a new database (type_of at every token), imported by a second file and edited to the neighbouring boundary value; non-trivial = the text has no syntax error (the analysis reaches the numbers), distinct by text. Search `readers`: case = edit history (<= 20 ops, one thread) + 2-4 scripts of 5-13 read-only queries (diagnostics, analyze, file_symbols, type_of, expr_id_at_offset, resolve_name over FileId 1..5) run concurrently on one &Database at up to 4 points of the history (cold pass, barrier, warm pass), the case repeated 8 (quick) / 12 (thorough) times with a new Database; non-trivial = at least two files are present at the end. Otherwise distinct by SHA-256 of the op list",
         assumptions: &[
-            "single-threaded use of one Database / Project (no concurrent edit/query; cancellation is not exercised)",
+            "edits are exclusive (one thread, as &mut self demands); concurrent use is exercised for readers only: 2-4 threads querying one &Database between edits; no query runs concurrently with an edit and trigger_salsa_cancellation is not called; the Project search is single-threaded",
+            "the number of overlapping concurrent queries depends on the OS schedule (evidence only): the verdict compares every concurrent answer with the sequential from-scratch answer and involves no timing",
             "the from-scratch Database is loaded in ascending FileId order; the from-scratch Project is loaded in the order of the incremental project's FileIds (name clashes are resolved by FileId order, so the relative order is part of the input)",
             "files are FileId 1..5 resp. 8 source keys (virtual and non-existing paths), texts <= ~3 KB (generated project) or mutated repository .st files <= 2.5 KB",
         ],
@@ -84,6 +92,8 @@ enum Raw {
     TypeAt(Option<u32>, Option<TypeId>),
     Type(TypeId),
     Expr(Option<u32>),
+    /// `resolve_name`: the symbol found, by name and range (not by SymbolId)
+    Resolved(Option<Option<(String, u32, u32)>>),
 }
 
 fn ask(db: &Database, kind: QueryKind, f: FileId, arg: u32) -> Raw {
@@ -100,6 +110,20 @@ fn ask(db: &Database, kind: QueryKind, f: FileId, arg: u32) -> Raw {
         }
         QueryKind::TypeOfId => Raw::Type(db.type_of(f, arg)),
         QueryKind::ExprAt => Raw::Expr(db.expr_id_at_offset(f, arg)),
+        QueryKind::ResolveName => {
+            let name = gen::RESOLVE_NAMES[arg as usize % gen::RESOLVE_NAMES.len()];
+            let id = db.resolve_name(f, name);
+            let table = db.file_symbols(f);
+            Raw::Resolved(id.map(|i| {
+                table.get(i).map(|s| {
+                    (
+                        s.name.to_string(),
+                        u32::from(s.range.start()),
+                        u32::from(s.range.end()),
+                    )
+                })
+            }))
+        }
     }
 }
 
@@ -163,6 +187,7 @@ fn render_raw_with(
         )],
         Raw::Type(t) => vec![format!("type={}", ty(*t))],
         Raw::Expr(id) => vec![format!("expr={id:?}")],
+        Raw::Resolved(r) => vec![format!("resolved={r:?}")],
     }
 }
 
@@ -687,6 +712,10 @@ static PROJECT_BUDGET: ShrinkBudget = ShrinkBudget {
     failed: AtomicBool::new(false),
     calls: AtomicU32::new(0),
 };
+static READERS_BUDGET: ShrinkBudget = ShrinkBudget {
+    failed: AtomicBool::new(false),
+    calls: AtomicU32::new(0),
+};
 const SHRINK_BUDGET: u32 = 500;
 
 fn budgeted(
@@ -766,24 +795,77 @@ fn history_strategy_cfg(cfg: &'static gen::GenCfg) -> impl Strategy<Value = Hist
 
 fn run(ctx: &mut RunCtx) {
     let tier = ctx.tier;
-    ctx.search(
-        "history",
-        history_strategy(),
-        tier.pick(400, 20_000),
-        check_history,
-    );
+    // development / acceptance knob: run one search only (e.g. TPV_C13_ONLY=readers)
+    let only = std::env::var("TPV_C13_ONLY").ok();
+    let wanted = |name: &str| only.as_deref().map(|o| o == name).unwrap_or(true);
+    if wanted("history") {
+        ctx.search(
+            "history",
+            history_strategy(),
+            tier.pick(400, 20_000),
+            check_history,
+        );
+    }
     // third search: numeric boundary literals wherever the front end computes with
     // numbers from the source ("no query panics for any file contents")
     let bcase = (0u8..boundary::N_TEMPLATES as u8, any::<u8>(), any::<u8>(), any::<u8>(), 0u8..22)
         .prop_map(|(tpl, a, b, c, ty)| boundary::BoundaryCase { tpl, a, b, c, ty });
-    ctx.search("boundary", bcase, tier.pick(1000, 60_000), check_boundary);
+    if wanted("boundary") {
+        ctx.search("boundary", bcase, tier.pick(1000, 60_000), check_boundary);
+    }
     // second search: the same property through trust_hir::Project (keys, allocated ids)
-    ctx.search(
-        "project",
-        history_strategy_cfg(&gen::PROJECT_CFG),
-        tier.pick(200, 8_000),
-        check_project_history,
-    );
+    if wanted("project") {
+        ctx.search(
+            "project",
+            history_strategy_cfg(&gen::PROJECT_CFG),
+            tier.pick(200, 8_000),
+            check_project_history,
+        );
+    }
+    // fourth search: concurrent readers of one &Database (the only schedule-dependent part;
+    // its oracle is the sequential from-scratch answer, so a correct tree cannot flake)
+    let repetitions = tier.pick(8, 12) as usize;
+    let rcase = (
+        history_strategy_cfg(&gen::READERS_CFG),
+        proptest::collection::vec(
+            proptest::collection::vec((0u8..7, 0u8..NFILES as u8, any::<u32>()), 5..14),
+            2..=4,
+        ),
+        proptest::collection::vec(any::<u32>(), 0..3),
+    )
+        .prop_map(|(history, scripts, phases)| readers::ReadersCase {
+            history,
+            scripts,
+            phases,
+            generated: true,
+        });
+    let rcases = if wanted("readers") { tier.pick(96, 3_000) } else { 0 };
+    ctx.search("readers", rcase, rcases, move |c: &readers::ReadersCase, p: &mut Probe| {
+        if c.generated
+            && READERS_BUDGET.failed.load(Ordering::Relaxed)
+            && READERS_BUDGET.calls.fetch_add(1, Ordering::Relaxed) >= 120
+        {
+            return Ok(());
+        }
+        // a replayed case (regression file) gets more repetitions: it is a known shape
+        let reps = if c.generated { repetitions } else { repetitions * 3 };
+        let res = crate::engine::catch(|| readers::check_readers(c, reps, p)).and_then(|r| r);
+        if res.is_err() && c.generated {
+            READERS_BUDGET.failed.store(true, Ordering::Relaxed);
+        }
+        res
+    });
+    {
+        let asked = readers::QUERIES_ASKED.load(Ordering::Relaxed);
+        let over = readers::QUERIES_OVERLAPPED.load(Ordering::Relaxed);
+        let cold = readers::COLD_QUERIES_OVERLAPPED.load(Ordering::Relaxed);
+        let phases = readers::PHASES.load(Ordering::Relaxed);
+        let cold_phases = readers::PHASES_WITH_COLD_OVERLAP.load(Ordering::Relaxed);
+        ctx.note(format!(
+            "worker {} readers (schedule dependent): {asked} concurrent queries asked, {over} overlapped another reader's query ({cold} of them in a cold pass); {cold_phases} of {phases} read phases had overlapping cold queries",
+            ctx.worker
+        ));
+    }
     if !DB_BUDGET.failed.load(Ordering::Relaxed) && !PROJECT_BUDGET.failed.load(Ordering::Relaxed) {
         ctx.note(format!(
             "worker {}: {} per-file answer groups (diagnostics / analyze diagnostics / analyze symbols / file symbols / expression types) and {} single query answers compared with {} brand-new databases / projects",
